@@ -81,7 +81,7 @@ def inputs_for(pid, tier, rng):
         ex = list(pc.enum_strings(SIGMA_C05, 3 if quick else 4)) + list(pc.enum_strings(pc.SIGMA_CORE, 4))
         specials = ["hello\n---\na: 1\n---\nstep", "---\na: 1\n---\nstep", "a [- b -] c", "a -- b\nc", "\\-- a",
                     "[- a", "a \\[- b -] c", "-- a\n>> k: v", "@a{1%b} -- c", "= s = x", "== s == x"]
-    fm = (pc.frontmatter_family(3 if quick else 4) if pid == "C05" else pc.frontmatter_family(2)) + pc.fm_placements()
+    fm = (pc.frontmatter_family(3 if quick else 4) if pid == "C05" else pc.frontmatter_family(2)) + pc.fm_placements() + pc.edge_families()
     ng = 1500 if quick else 12000
     g = [t for t, _, _, _ in pc.grec_texts(rng, ng)]
     mb = mb_recipes(rng, ng)
